@@ -10,6 +10,18 @@ cd $wt && git apply /verif/seeded/$id/patch.diff || { echo "$id: patch does not 
 /venv/bin/python setup.py build_ext --inplace -q >/dev/null 2>&1
 timeout 3000 /venv/bin/python -m pytest -ra -q -p no:cacheprovider --timeout=900 --continue-on-collection-errors --junitxml=/tmp/ctest-$id.xml > /tmp/ctest-$id.log 2>&1
 res=$(/verif/tools/cmp_baseline.py /tmp/ctest-$id.xml | tr '\n' ';' | tr '"' "'")
+# tests of the baseline that did not pass are re-run alone (the sandbox is busy:
+# PID reuse and thread-id races make a few of them flaky under load)
+rerun=""
+for t in $(/verif/tools/cmp_baseline.py /tmp/ctest-$id.xml | grep "NOT PASSING" | awk '{print $3}'); do
+  mod=${t%%::*}; rest=${t#*::}; file=$(echo $mod | sed 's|\.[A-Za-z]*$||; s|\.|/|g').py; cls=${mod##*.}
+  ok=no
+  for i in 1 2 3; do
+    if timeout 600 /venv/bin/python -m pytest -q -p no:cacheprovider "$file::$cls::$rest" >/tmp/ctest-$id.rerun.log 2>&1; then ok=yes; break; fi
+  done
+  rerun="$rerun $cls::$rest re-run alone: passed=$ok;"
+done
+res="$res$rerun"
 tailline=$(tail -1 /tmp/ctest-$id.log | tr '"' "'")
 echo "{\"id\": \"$id\", \"baseline_compare\": \"$res\", \"pytest_summary\": \"$tailline\"}" > /verif/seeded/$id/tests.json
 echo "$id :: $res"
